@@ -331,7 +331,7 @@ func runOutboundProcess(c OPCase, prop string) *fOutcome {
 		deadline := time.Now().Add(20 * time.Second)
 		ok := true
 		for _, p := range []int{pIn, pAdmin} {
-			for !waitPort(p, 50*time.Millisecond) {
+			for !(waitPort(p, 50*time.Millisecond) && ownsPort(cmd.Process.Pid, p)) {
 				if exited(cmd.Process.Pid) || time.Now().After(deadline) {
 					ok = false
 					break
